@@ -17,7 +17,8 @@ EXPLANATION = (
     "classifies 0 bytes as Disconnected, a short header as PartialMessage, an invalid header as InvalidMessage; (S4) the "
     "errno classification table equals the reference; (S5) every read of a request body can span several receives "
     "(it is performed by a looping receiver), and a short body is an error; (S6) reply receivers size the variable part "
-    "from the reply's own header.")
+    "from the reply's own header."
+    " Also: (S2) descriptors are kept only under a zero test of the accumulator of received byte counts; (S3) the completeness comparison covers every fixed-size iovec; (S7) no caller drops a receive's byte count; (S8) a zero-byte receive leaves every receive loop; (S9) all tests of a size against MAX_MSG_SIZE agree on the inclusive bound; (S10) C01/W6; (S11) a clean Disconnected is produced only by the first receive of an endpoint receiver under 0 bytes.")
 NOT_DECIDED = ("The iovec offset helper as a numeric function, real partial writes/reads, delays, 'without blocking forever' as a timing claim.")
 
 RAW_SEND = "send_with_fds"
